@@ -3327,7 +3327,7 @@ def rule_payload(sink, eng: Engine):
                    node=f.node, detail="payload looked up exactly for {%s}" % op_set_str(spec_ops))
     sink.floor("payload_lookups", 2)
     sink.floor("payload_uses", 1)
-    sink.floor("unit_terms", 4)
+    sink.floor("unit_terms", 3)
     sink.floor("block_end_updates", 1)
     a, b = canon.get("DEXBasicBlock.push", set()), canon.get("determineNext", set())
     sink.ob("payload-address", "siblings agree", a == b, "push: %s / determineNext: %s" % (sorted(a), sorted(b)))
